@@ -74,8 +74,7 @@ func rangeElemHeader(v ssa.Value) (slice ssa.Value, hdr *ssa.BasicBlock, ok bool
 	if !isR {
 		return nil, nil, false
 	}
-	ia := v.(*ssa.UnOp).X.(*ssa.IndexAddr)
-	return sl, rangeHeader(ia.Index), true
+	return sl, rangeHeader(elemIndex(v)), true
 }
 
 // loopBody returns the blocks of the loop with header hdr that are reachable
@@ -120,8 +119,20 @@ func fsm1(c *Ctx) {
 	for _, f := range c.pkgFuncsDeep("internal/fsm") {
 		for _, call := range ir.Calls(f) {
 			if ir.Static(call) == isShortcut && isShortcut != nil {
-				fn = f
-				test, _ = call.(*ssa.Call)
+				// the elimination step is the caller that rewrites the transition list (a mere
+				// "is there a shortcut" pre-check calls the predicate too)
+				writes := false
+				ir.Instrs(f, func(in ssa.Instruction) {
+					if st, ok := in.(*ssa.Store); ok {
+						if _, fld, isF := ir.FieldAddr(st.Addr); isF && fld == "Transitions" {
+							writes = true
+						}
+					}
+				})
+				if fn == nil || writes {
+					fn = f
+					test, _ = call.(*ssa.Call)
+				}
 			}
 		}
 	}
@@ -543,7 +554,18 @@ func isRemovalValue(v ssa.Value, recv ssa.Value) bool {
 	v = stripConv(v)
 	if cv, isCall := v.(*ssa.Call); isCall {
 		f2 := ir.Static(cv)
-		return f2 != nil && removesOne(f2)
+		if f2 == nil {
+			return false
+		}
+		if removesOne(f2) {
+			return true
+		}
+		// a helper that gives the list back unchanged for a position outside it removes one element
+		// whenever the position it is given is inside: here, the index of a loop over that very list
+		if ip, ap, ok := removesOneInRange(f2); ok && ip < len(cv.Call.Args) && ap < len(cv.Call.Args) {
+			return indexOfLoopOver(cv.Call.Args[ip], stripConv(cv.Call.Args[ap]))
+		}
+		return false
 	}
 	ms, ok := v.(*ssa.MakeSlice)
 	if !ok {
@@ -593,6 +615,98 @@ func removesOne(f *ssa.Function) bool {
 		}
 	}
 	return len(ir.ReturnPoints(f)) > 0
+}
+
+// indexOfLoopOver: idx is the counter of a loop whose condition is idx < len(list), list read from the
+// same place as arr with no store in between.
+func indexOfLoopOver(idx, arr ssa.Value) bool {
+	var phi *ssa.Phi
+	if bo, ok := idx.(*ssa.BinOp); ok && bo.Op == token.ADD {
+		phi, _ = bo.X.(*ssa.Phi) // rotated range loop: the index is phi+1
+	} else {
+		phi, _ = idx.(*ssa.Phi)
+	}
+	if phi == nil || !ir.NonNegativeIndex(idx) {
+		return false
+	}
+	h := phi.Block()
+	iff, ok := h.Instrs[len(h.Instrs)-1].(*ssa.If)
+	if !ok {
+		return false
+	}
+	cond, ok := iff.Cond.(*ssa.BinOp)
+	if !ok || cond.Op != token.LSS || cond.X != idx {
+		return false
+	}
+	lc, ok := cond.Y.(*ssa.Call)
+	if !ok || len(lc.Call.Args) != 1 {
+		return false
+	}
+	if bi, isB := lc.Call.Value.(*ssa.Builtin); !isB || bi.Name() != "len" {
+		return false
+	}
+	return sameLoad(stripConv(lc.Call.Args[0]), arr)
+}
+
+// removesOneInRange: like removesOne, except that the list parameter itself is returned on the ways out
+// on which the int parameter is known to be no position of the list (idx < 0 or idx >= len(list)).
+func removesOneInRange(f *ssa.Function) (idxParam, arrParam int, ok bool) {
+	idxParam, arrParam = -1, -1
+	for i, p := range f.Params {
+		if b, isB := p.Type().Underlying().(*types.Basic); isB && b.Kind() == types.Int {
+			idxParam = i
+		}
+		if _, isS := p.Type().Underlying().(*types.Slice); isS {
+			arrParam = i
+		}
+	}
+	if idxParam < 0 || arrParam < 0 {
+		return 0, 0, false
+	}
+	ip, ap := f.Params[idxParam], f.Params[arrParam]
+	sawMake := false
+	for _, r := range ir.ReturnWays(f) {
+		res := stripConv(r.Results[0])
+		if ms, isMs := res.(*ssa.MakeSlice); isMs {
+			bo, okB := ms.Len.(*ssa.BinOp)
+			if !okB || bo.Op != token.SUB {
+				return 0, 0, false
+			}
+			if one, isC := ir.ConstInt(bo.Y); !isC || one != 1 {
+				return 0, 0, false
+			}
+			lc, okC := bo.X.(*ssa.Call)
+			if !okC || len(lc.Call.Args) != 1 || lc.Call.Args[0] != ssa.Value(ap) {
+				return 0, 0, false
+			}
+			sawMake = true
+			continue
+		}
+		if res != ssa.Value(ap) {
+			return 0, 0, false
+		}
+		outside := false
+		ir.Instrs(f, func(in ssa.Instruction) {
+			bo, isBo := in.(*ssa.BinOp)
+			if !isBo || bo.X != ssa.Value(ip) {
+				return
+			}
+			if z, isC := ir.ConstInt(bo.Y); isC && z == 0 && ((bo.Op == token.LSS && r.Holds(bo, true)) || (bo.Op == token.GEQ && r.Holds(bo, false))) {
+				outside = true
+			}
+			if lc, isCall := bo.Y.(*ssa.Call); isCall && len(lc.Call.Args) == 1 && lc.Call.Args[0] == ssa.Value(ap) {
+				if bi, isB := lc.Call.Value.(*ssa.Builtin); isB && bi.Name() == "len" {
+					if (bo.Op == token.GEQ && r.Holds(bo, true)) || (bo.Op == token.LSS && r.Holds(bo, false)) {
+						outside = true
+					}
+				}
+			}
+		})
+		if !outside {
+			return 0, 0, false
+		}
+	}
+	return idxParam, arrParam, sawMake
 }
 
 func fsm2(c *Ctx) {
@@ -679,7 +793,7 @@ func fsm2(c *Ctx) {
 						case *ssa.MapUpdate:
 							if isSet(x.Map) {
 								if _, isP := x.Key.(*ssa.Parameter); isP {
-									if v, isC := ir.ConstBool(x.Value); isC && v && (x.Block().Dominates(cv.Block())) {
+									if v, isC := ir.ConstBool(x.Value); isC && v && (x.Block().Dominates(cv.Block()) || ir.MustPassBefore(cv, func(in2 ssa.Instruction) bool { return in2 == ssa.Instruction(x) })) {
 										marked = true
 									}
 								}
@@ -687,11 +801,22 @@ func fsm2(c *Ctx) {
 						case *ssa.Lookup:
 							if isSet(x.X) && !x.CommaOk {
 								if _, isP := x.Index.(*ssa.Parameter); isP && ir.HoldsAt(x, false, cv.Block()) {
-									// visited edge must return
+									// visited edge must return, doing nothing on the way
 									ret := true
 									for _, e := range ir.EdgesWhere(fn, x, true) {
-										if !ir.IsReturn(e.To) {
-											ret = false
+										if ir.IsReturn(e.To) {
+											continue
+										}
+										for b := range ir.ReachVia(e.From, e.To, nil, nil) {
+											if b == cv.Block() {
+												ret = false
+											}
+											for _, bin := range b.Instrs {
+												switch bin.(type) {
+												case *ssa.Call, *ssa.Store, *ssa.MapUpdate, *ssa.Go, *ssa.Defer, *ssa.Panic:
+													ret = false
+												}
+											}
 										}
 									}
 									if ret {
@@ -840,7 +965,7 @@ func fixpointMeasure(c *Ctx, caller *ssa.Function, loopB *ssa.BasicBlock, call *
 			}
 			domAll := true
 			for _, st := range appendStores {
-				if !mu.Block().Dominates(st.Block()) {
+				if !mu.Block().Dominates(st.Block()) && !ir.MustPassBefore(st, func(in2 ssa.Instruction) bool { return in2 == ssa.Instruction(mu) }) {
 					domAll = false
 				}
 			}
@@ -885,12 +1010,14 @@ func fsm3(c *Ctx) {
 	// transition offered
 	trv, isF := fieldOf(match.Call.Value, "Matcher")
 	var hdr1 *ssa.BasicBlock
+	var offered ssa.Value // the ranged transition list
 	okOffer := false
 	why := "Match is not invoked on the Matcher of each element of the receiver's Transitions"
 	if isF {
 		sl, h, isR := rangeElemHeader(trv)
 		if base, ok := fieldOf(sl, "Transitions"); isR && ok && base == ssa.Value(recv) {
 			hdr1 = h
+			offered = sl
 			okOffer = true
 			// every path through the body passes the invoke
 			_, entry, _ := loopBody(h)
@@ -1055,6 +1182,12 @@ func fsm3(c *Ctx) {
 				// reachable only through the exhaustion edge of the loop over the records
 				_, _, ex := loopBody(hdr2)
 				cut := map[ir.Edge]bool{{From: hdr2, To: ex}: true}
+				if offered != nil {
+					// a state without transitions has nothing to record: its matches are exhausted at once
+					for _, e := range lenOnlyZeroEdgesLike(fn, offered) {
+						cut[e] = true
+					}
+				}
 				if ex == nil || r.ReachableUnder(ir.Reach(fn.Blocks[0], nil, cut), cut) {
 					okRet, why = false, fmt.Sprintf("return false at %s is not the exhaustion of the recorded matches", c.P.Pos(r.Pos()))
 				}
@@ -1672,6 +1805,9 @@ func fsm5(c *Ctx) {
 								arr = ld.X
 							}
 						}
+						if ld, isLd := arr.(*ssa.UnOp); isLd && ld.Op == token.MUL {
+							arr = ld.X // the array read as a value
+						}
 						if arr != nil {
 							if al, isAl := arr.(*ssa.Alloc); isAl {
 								var at [2]string
@@ -2000,6 +2136,33 @@ func fsm6(c *Ctx) {
 	}
 }
 
+// flagFollowsStrip: the flag value stored after a join is `true` exactly on the ways in on which the
+// vector is the stripped one, and the flag as it was on the others (the shape a helper returning
+// (vector, flag) leaves once inlined).
+func flagFollowsStrip(flag ssa.Value, vec ssa.Value, strip *ssa.Slice) bool {
+	fp, ok1 := flag.(*ssa.Phi)
+	vp, ok2 := vec.(*ssa.Phi)
+	if !ok1 || !ok2 || fp.Block() != vp.Block() || len(fp.Edges) != len(vp.Edges) {
+		return false
+	}
+	sawTrue := false
+	for i, fe := range fp.Edges {
+		stripped := vp.Edges[i] == ssa.Value(strip)
+		if b, isC := ir.ConstBool(fe); isC {
+			if !b || !stripped {
+				return false // never cleared; set only with the strip
+			}
+			sawTrue = true
+			continue
+		}
+		// the flag as it was
+		if _, f, isF := ir.FieldLoad(fe); !isF || f != "RejectOptions" || stripped {
+			return false
+		}
+	}
+	return sawTrue
+}
+
 func fsm7(c *Ctx) {
 	fn, match := c.matcherLoop()
 	if fn == nil {
@@ -2057,7 +2220,7 @@ func fsm7(c *Ctx) {
 					okFlagGuard = true
 				}
 			case *ssa.BinOp:
-				if s, isC := ir.ConstString(x.Y); isC && s == "--" && x.Op == token.EQL && ir.HoldsAt(x, true, strip.Block()) {
+				if s, isC := ir.ConstString(x.Y); isC && s == "--" && ((x.Op == token.EQL && ir.HoldsAt(x, true, strip.Block())) || (x.Op == token.NEQ && ir.HoldsAt(x, false, strip.Block()))) {
 					if ld, isLd := x.X.(*ssa.UnOp); isLd {
 						if ia, isIA := ld.X.(*ssa.IndexAddr); isIA && ia.X == ssa.Value(args) {
 							if z, isZ := ir.ConstInt(ia.Index); isZ && z == 0 {
@@ -2069,6 +2232,9 @@ func fsm7(c *Ctx) {
 			case *ssa.Store:
 				if _, f, ok := ir.FieldAddr(x.Addr); ok && f == "RejectOptions" {
 					if v, isC := ir.ConstBool(x.Val); isC && v && x.Block() == strip.Block() {
+						okStore = true
+					}
+					if flagFollowsStrip(x.Val, vec, strip) {
 						okStore = true
 					}
 				}
@@ -2095,7 +2261,7 @@ func fsm7(c *Ctx) {
 		if st, ok := in.(*ssa.Store); ok {
 			if _, f, isF := ir.FieldAddr(st.Addr); isF && f == "RejectOptions" {
 				if al, isAl := st.Addr.(*ssa.FieldAddr).X.(*ssa.Alloc); isAl && al.Comment == "pc" {
-					if strip == nil || st.Block() != strip.Block() {
+					if strip == nil || (st.Block() != strip.Block() && !flagFollowsStrip(st.Val, vec, strip)) {
 						okOnly = false
 					}
 				}
